@@ -6,6 +6,7 @@ from ..nf import Rat, C
 from ..source import Unsupported, AnchorError, params
 from ..xlate import Interp, Obj, ListV, DictV, Raised, RankOrder
 from .common import same, show
+from .rxnfix import get_public
 
 COV = 'pmutt.mixture.cov.PiecewiseCovEffect'
 # positions of breakpoints and coverages are written as integer codes 0, 5, 10, ... (also in labels and keys); the
@@ -28,6 +29,18 @@ def _subst(v, atom, by):
     if sp is None:
         return None
     return sp[0] * by + sp[1]
+
+
+def _attr(I, o, name):
+    """the documented attribute ``name`` of a model as a user reads it: the stored value, or the value of the class's
+    property of that name; None when the model has neither"""
+    if not isinstance(o, Obj):
+        return None
+    if name in o.attrs:
+        return o.attrs[name]
+    if o.ci is not None and I.repo.find_method(o.ci, name, missing_ok=True):
+        return get_public(I, o, name)
+    return None
 
 
 def _method(repo, ci, name):
@@ -106,7 +119,7 @@ def two_models(run, repo, ci):
         return I.construct(ci, [], kw)
 
     def lists(o):
-        got = [o.attrs.get('intervals'), o.attrs.get('slopes')] if isinstance(o, Obj) else [None, None]
+        got = [_attr(I, o, 'intervals'), _attr(I, o, 'slopes')]
         return [list(v.items) if isinstance(v, ListV) else None for v in got]
 
     def value(o, rank):
@@ -161,7 +174,7 @@ def invariants(run, w, label, owner_fn, on_breakpoints=True):
     mod, fn = owner_fn
     # only the documented attributes are read; how (and under which name) the intercepts are stored is private -
     # continuity is decided on the values get_UoRT returns
-    iv, sl = o.attrs.get('intervals'), o.attrs.get('slopes')
+    iv, sl = _attr(I, o, 'intervals'), _attr(I, o, 'slopes')
     ok_lists = all(isinstance(v, ListV) for v in (iv, sl)) and len(iv) == len(sl) == len(w.pairs)
     if not run.check(ok_lists, 'PAIR.lengths', 'PiecewiseCovEffect', label,
                      'intervals and slopes must have the same length as the number of breakpoints '
@@ -244,7 +257,7 @@ def reloaded(run, w, key):
     if not isinstance(o2, Obj):
         why = 'from_dict gives %s' % show(o2, 80)
     else:
-        iv, sl = o2.attrs.get('intervals'), o2.attrs.get('slopes')
+        iv, sl = _attr(I, o2, 'intervals'), _attr(I, o2, 'slopes')
         want_iv, want_sl = [p[0] for p in w.pairs], [p[1] for p in w.pairs]
         for nm, v, want in (('intervals', iv, want_iv), ('slopes', sl, want_sl)):
             if not (isinstance(v, ListV) and len(v.items) == len(want) and all(same(a, b) for a, b in
@@ -284,8 +297,8 @@ def edges(run, repo, ins_owner, pop_owner):
             if any(isinstance(w.insert(r), Raised) for r in (5, 15)[:n_ins]):
                 return
             w.probe()
-            lists0 = [list(w.obj.attrs[a].items) if isinstance(w.obj.attrs.get(a), ListV) else None
-                      for a in ('intervals', 'slopes')]
+            lists0 = [list(v.items) if isinstance(v, ListV) else None
+                      for v in (_attr(w.I, w.obj, 'intervals'), _attr(w.I, w.obj, 'slopes'))]
             r = w.pop(i)
             label = 'pop(%d) on %d breakpoints' % (i, n)
             if -n < i < n:
@@ -295,8 +308,8 @@ def edges(run, repo, ins_owner, pop_owner):
                 invariants(run, w, 'after pop of an interior/last breakpoint', pop_owner)
                 continue
             # an index the model does not have: refused, and the model is what it was
-            lists1 = [list(w.obj.attrs[a].items) if isinstance(w.obj.attrs.get(a), ListV) else None
-                      for a in ('intervals', 'slopes')]
+            lists1 = [list(v.items) if isinstance(v, ListV) else None
+                      for v in (_attr(w.I, w.obj, 'intervals'), _attr(w.I, w.obj, 'slopes'))]
             if not run.check(isinstance(r, Raised) and lists0 == lists1, 'REF.pop', 'PiecewiseCovEffect.pop',
                              'index out of range',
                              'pop(%d) on %d breakpoints is accepted or changes the model: breakpoints %s -> %s, '
@@ -323,18 +336,24 @@ def edges(run, repo, ins_owner, pop_owner):
 def check(run, repo):
     run.explanation = (
         'PiecewiseCovEffect is interpreted abstractly through its real constructor, insert, pop and '
-        'get_UoRT with symbolic breakpoints and slopes whose ordering is supplied by an ordering oracle. After every '
-        'sequence of operations (1-3 initial breakpoints; up to 2 (quick) / 3 (thorough) inserts below, between, '
+        'get_UoRT with symbolic breakpoints and slopes whose ordering is supplied by an ordering oracle (all breakpoints '
+        'and coverages lie in [0, 1]: position code/40). After every '
+        'sequence of operations (1-3 initial breakpoints; up to 2 (quick) / 3 (thorough) inserts equal to the first '
+        'breakpoint (the number 0), below, between, '
         'equal to and above the existing breakpoints and pops) the lists are compared with the reference sorted pair '
         'list kept by the checker: ascending order, slope pairing, equal lengths, and get_UoRT on, between and '
         'beyond the breakpoints equals slope*x+intercept of the containing piece divided by RT, the intercepts being '
         'the checker\'s own continuity recurrence starting at 0 (only the documented attributes intervals and slopes '
-        'are read), independent of T; S, Cv, Cp are 0; to_dict/from_dict rebuilds the same '
-        'lists. The model is also evaluated before every edit of a sequence (nothing an evaluation leaves behind may '
-        'survive an edit; H, F, G and the reloaded copy likewise: evaluated, edited, evaluated); the model reached by '
+        'are read), independent of T (on a breakpoint either adjacent piece, or any expression with the same value '
+        'when the breakpoint is written for the coverage); S, Cv, Cp are 0; to_dict/from_dict rebuilds the same '
+        'lists. Every sequence is run twice: with an evaluation before every edit, and with an evaluation before '
+        'the first edit only (nothing an evaluation leaves behind may survive one edit or several edits in a row; H, F, '
+        'G and the reloaded copy likewise: evaluated, edited, evaluated); the model reached by '
         'every sequence of up to 2 operations (breakpoints repeated by an insert onto a breakpoint included) is '
         'serialised and reloaded and must list the reference pairs and evaluate to the reference beyond the last '
-        'breakpoint; two models are alive in one interpreter, built with the list arguments omitted when the '
+        'breakpoint; removal by every index a model of 2-5 breakpoints has, counted from either end, and by indices '
+        'it does not have (refused, model untouched); an insert at coverage 1; two models are alive in one '
+        'interpreter, built with the list arguments omitted when the '
         'constructor has defaults for them: editing one leaves the other and a model built afterwards as they were.')
     run.assumptions = ['np.argmax of a boolean array is the index of the first True and 0 when there is none']
     run.undecided = ['numeric evaluation with floating-point breakpoints']
@@ -485,7 +504,7 @@ def check(run, repo):
     if isinstance(d, DictV):
         snap = dict(d.d)
         o2 = w.I.call_function(owner.module, fn, [], {'json_obj': DictV(dict(d.d))}, self_obj=ci, owner=owner)
-        ok = isinstance(o2, Obj) and all(same(o2.attrs.get(k), w.obj.attrs.get(k))
+        ok = isinstance(o2, Obj) and all(same(_attr(w.I, o2, k), _attr(w.I, w.obj, k))
                                          for k in ('intervals', 'slopes', 'name_i', 'name_j'))
         if ok:
             # and it evaluates like the original (whatever private state the reload has to rebuild)
@@ -501,18 +520,22 @@ def check(run, repo):
             # they were (a dictionary that shares its lists with the model is not a saved state)
             xq2, Tq2 = w.I.D.sym('xq'), w.I.D.sym('Tq')
             before = w.I.call_method(w.obj, 'get_UoRT', [], {'x': xq2, 'T': Tq2})
-            n_before = len(w.obj.attrs['intervals'].items)
+            def n_bp():
+                v = _attr(w.I, w.obj, 'intervals')
+                return len(v.items) if isinstance(v, ListV) else -1
+
+            n_before = n_bp()
             w.ranks['xnew'] = _rank(12)
             w.I.call_method(o2, 'insert', [], {'interval': w.I.D.sym('xnew'), 'slope': w.I.D.sym('knew')})
             after = w.I.call_method(w.obj, 'get_UoRT', [], {'x': xq2, 'T': Tq2})
             o_t, f_t = repo.find_method(ci, 'to_dict')
-            run.check(same(before, after) and len(w.obj.attrs['intervals'].items) == n_before, 'EFFECT.shared-state',
+            run.check(same(before, after) and n_bp() == n_before, 'EFFECT.shared-state',
                       'PiecewiseCovEffect.to_dict', 'edit the reloaded copy',
                       'inserting a breakpoint into the copy rebuilt by from_dict(to_dict()) changes the original '
                       '(value at the same coverage %s -> %s, %d -> %d breakpoints): the dictionary carries the '
                       'model\'s own lists instead of copies' % (show(before, 80), show(after, 80), n_before,
-                                                               len(w.obj.attrs['intervals'].items)), o_t.module, f_t)
-            if same(before, after) and len(w.obj.attrs['intervals'].items) == n_before:
+                                                               n_bp()), o_t.module, f_t)
+            if same(before, after) and n_bp() == n_before:
                 # the copy was evaluated, then edited: it is the reference function of its own pair list
                 pairs2 = list(w.pairs)
                 pairs2.insert(len([p for p in pairs2 if p[2] <= 12]), (w.I.D.sym('xnew'), w.I.D.sym('knew'), Fr(12)))
@@ -632,6 +655,9 @@ EQUIV = [
                 '        self.slopes.pop(i)\n        self._set_intercepts()\n\n\n'
                 'class PiecewiseCovEffect(_PiecewiseLinear, _ModelBase):'),
                (C_, '    def pop(self, i):\n        """Removes the interval', '    def _pop_here(self, i):\n        """Removes the interval')]},
+    {'name': 'breakpoints kept behind a property of the documented name',
+     'edits': [(C_, '    def insert(self, interval, slope):', '    @property\n    def intervals(self):\n        return self._bps\n\n'
+                '    @intervals.setter\n    def intervals(self, v):\n        self._bps = v\n\n    def insert(self, interval, slope):')]},
     {'name': 'insert refuses breakpoints outside the domain [0, 1]',
      'edits': [(C_, '        self.intervals.insert(i, interval)\n', "        if interval < 0. or interval > 1.:\n"
                 "            raise ValueError('Intervals are coverages between 0 and 1 ML')\n"
